@@ -46,7 +46,7 @@ CommitState(hs) ==
   /\ Len(log) < MaxCommits /\ hs # {} /\ hs \subseteq Present(p.S)
   /\ LET upd == [h \in hs |-> p.S[h] + 1] IN
        /\ p' = [p EXCEPT !.ver = @ + 1, !.S = [h \in Hs |-> IF h \in hs THEN upd[h] ELSE @[h]]]
-       /\ log' = Append(log, [ver |-> p.ver + 1, ep |-> p.ep, kind |-> "state", upd |-> upd, del |-> {}, crt |-> {}])
+       /\ log' = Append(log, [ver |-> p.ver + 1, ep |-> p.ep, kind |-> "state", upd |-> upd, del |-> {}, crt |-> {}, w |-> FALSE])
        /\ pub' = Publish(pub, p.ep, upd)
   /\ UNCHANGED <<c, nd>>
   /\ Log([act |-> "CommitState", hs |-> hs])
@@ -56,7 +56,7 @@ CommitDescrUpdate(h) ==
   /\ Len(log) < MaxCommits /\ h \in Present(p.S)
   /\ LET upd == (h :> p.S[h] + 1) IN
        /\ p' = [p EXCEPT !.ver = @ + 1, !.S[h] = @ + 1]
-       /\ log' = Append(log, [ver |-> p.ver + 1, ep |-> p.ep, kind |-> "descr", upd |-> upd, del |-> {}, crt |-> {}])
+       /\ log' = Append(log, [ver |-> p.ver + 1, ep |-> p.ep, kind |-> "descr", upd |-> upd, del |-> {}, crt |-> {}, w |-> FALSE])
        /\ pub' = Publish(pub, p.ep, upd)
   /\ UNCHANGED <<c, nd>>
   /\ Log([act |-> "CommitDescrUpdate", h |-> h])
@@ -64,19 +64,21 @@ CommitDescrUpdate(h) ==
 CommitDelete(h) ==
   /\ Len(log) < MaxCommits /\ h \in Dyn /\ h \in Present(p.S)
   /\ p' = [p EXCEPT !.ver = @ + 1, !.S[h] = Absent, !.last[h] = p.S[h]]
-  /\ log' = Append(log, [ver |-> p.ver + 1, ep |-> p.ep, kind |-> "descr", upd |-> <<>>, del |-> {h}, crt |-> {}])
+  /\ log' = Append(log, [ver |-> p.ver + 1, ep |-> p.ep, kind |-> "descr", upd |-> <<>>, del |-> {h}, crt |-> {}, w |-> FALSE])
   /\ UNCHANGED <<pub, c, nd>>
   /\ Log([act |-> "CommitDelete", h |-> h])
 
-CommitCreate(h) ==
+\* w: the same descriptor transaction also updates another (untracked, static) descriptor whose indexed attribute
+\* changes - the DescriptionModificationReport then has an Upt part in front of the Crt part
+CommitCreate(h, w) ==
   /\ Len(log) < MaxCommits /\ h \in Dyn /\ h \notin Present(p.S)
   /\ LET v == IF p.last[h] = Absent THEN 0 ELSE p.last[h] + 1
          upd == (h :> v) IN
        /\ p' = [p EXCEPT !.ver = @ + 1, !.S[h] = v]
-       /\ log' = Append(log, [ver |-> p.ver + 1, ep |-> p.ep, kind |-> "descr", upd |-> upd, del |-> {}, crt |-> {h}])
+       /\ log' = Append(log, [ver |-> p.ver + 1, ep |-> p.ep, kind |-> "descr", upd |-> upd, del |-> {}, crt |-> {h}, w |-> w])
        /\ pub' = Publish(pub, p.ep, upd)
   /\ UNCHANGED <<c, nd>>
-  /\ Log([act |-> "CommitCreate", h |-> h])
+  /\ Log([act |-> "CommitCreate", h |-> h, w |-> w])
 
 \* provider restarts: new SequenceId, all counters start again
 Restart(k) ==
@@ -106,12 +108,26 @@ Receive(cc, r) ==  \* _pre_check_report_ok + handler
   ELSE IF cc.phase = "initializing" THEN [cc EXCEPT !.buf = Append(@, r)]
   ELSE Handle(cc, r)
 
+\* situation label of a delivery (the drivers replay a cover of all labels TLC reaches, not a random sample)
+DSit(i) ==
+  LET r == log[i] IN
+  {"R:" \o r.kind \o ":" \o c.phase \o ":"
+     \o (IF r.ep # c.ep THEN "otherepoch" ELSE IF i \in c.seen THEN "dup" ELSE IF r.ver < c.ver THEN "stale"
+         ELSE IF r.ver = c.ver THEN "same" ELSE IF r.ver = c.ver + 1 THEN "next" ELSE "gap")
+     \o ":" \o (IF r.crt # {} THEN (IF \E h \in r.crt : c.S[h] # Absent THEN "crt-existing" ELSE "crt-new")
+                ELSE IF r.del # {} THEN (IF \E h \in r.del : c.S[h] = Absent THEN "del-absent" ELSE "del") ELSE "upd")
+     \o ":" \o (IF r.w THEN "with-update-part" ELSE "-")}
+  \* test purpose: a description report that is accepted, whose first part updates a descriptor and whose create part
+  \* names a handle the consumer still has (the delete report was lost): the later part is rejected by the consumer
+  \cup (IF c.phase = "initialized" /\ r.ep = c.ep /\ r.ver >= c.ver /\ r.w /\ i \notin c.seen /\ (\E h \in r.crt : c.S[h] # Absent)
+        THEN {"X:part-rejected-after-update-part"} ELSE {})
+
 Deliver(i) == /\ nd < MaxDeliver /\ i \in 1..Len(log)
               /\ c' = [Receive(c, log[i]) EXCEPT !.clean = c.clean /\ i = c.exp, !.exp = c.exp + 1,
                                                       !.seen = IF c.phase = "initialized" THEN c.seen \cup {i} ELSE c.seen]
               /\ nd' = nd + 1
               /\ UNCHANGED <<p, log, pub>>
-              /\ Log([act |-> "Deliver", i |-> i])
+              /\ Log([act |-> "Deliver", i |-> i, sit |-> DSit(i)])
 
 \* reload_all, split at the point where GetMdib is answered
 BeginLoad == /\ c.phase \in {"invalid", "initialized"} /\ nd < MaxDeliver
@@ -153,7 +169,7 @@ EndLoad == /\ c.phase = "initializing" /\ c.snap # NoSnap
            /\ Log([act |-> "EndLoad"])
 
 Next == \/ \E hs \in SUBSET Hs : CommitState(hs)
-        \/ \E h \in Hs : CommitDescrUpdate(h) \/ CommitDelete(h) \/ CommitCreate(h)
+        \/ \E h \in Hs : CommitDescrUpdate(h) \/ CommitDelete(h) \/ (\E w \in BOOLEAN : CommitCreate(h, w))
         \/ (\E k \in {"seq", "inst"} : Restart(k)) \/ BeginLoad \/ Snapshot \/ EndLoad
         \/ \E i \in 1..MaxCommits : Deliver(i) \/ ArriveDuringReplay(i)
 
